@@ -255,6 +255,11 @@ def units(tier):
         for (p, f, o) in [("ff", [2], {}), ("ff", [1, 1], {})]:
             us.append(Unit("4.sequence_terminates[%s,%s]" % (RC.shape_name(p, f, o), seq), "vf.props.c12", "session",
                            dict(pattern=p, folders=f, opts=o, seq=seq, by_path=False, terminates_only=True), 900))
+    # output beyond what the header legitimately declares: every decoder wrapper forwards the caller's limit (shared with C20)
+    from vf.props import c20
+
+    for w in c20.WRAPPERS:
+        us.append(Unit("5.limit_forwarding[%s]" % w, "vf.props.c20", "limit_forwarding", dict(wrapper=w), 600))
     return us
 
 
